@@ -82,6 +82,11 @@ def recording(events: List[dict]):
 def run_entry(text: str, dialect: str, templater: str, mode: str, fname: str = "<string>", tid: str = "",
               overrides: Optional[dict] = None) -> Dict[str, Any]:
     """mode: parse | lint | fix.  Returns one trace."""
+    import sys
+    if hasattr(sys, "tracebacklimit"):
+        # Dialect.ref() sets sys.tracebacklimit = 0 as a side effect when it raises for a dangling grammar
+        # reference; undo it so that the crash site of later runs in this process can still be recorded
+        del sys.tracebacklimit
     overrides = dict(overrides or {})
     events: List[dict] = []
     trace = {"id": tid, "mode": mode, "input": {"text": text, "dialect": dialect, "templater": templater, "fname": fname,
